@@ -122,6 +122,7 @@ type Sched struct {
 	localOpt bool
 	prefill  int
 	families bool
+	steer    func(enabled []int) int
 	objIDs   map[uintptr]uint64 // canonical identity of pooled objects (state keys)
 	objPins  []any
 }
@@ -166,6 +167,10 @@ type Options struct {
 	// explorer chooses between FAMILIES at operations on shared objects, at blocking and
 	// at thread exit. Every order of shared operations across families stays reachable.
 	Families bool
+	// Steer, if set, makes every scheduling decision instead of the Chooser (also when only
+	// one thread is enabled): it gets the ids of the enabled threads in canonical order and
+	// returns the index of the one to run. Used to replay paths of a protocol model.
+	Steer func(enabled []int) int
 }
 
 // Run executes body as managed thread 0 under the chooser and returns when every managed
@@ -173,7 +178,7 @@ type Options struct {
 func Run(ch Chooser, o Options, body func()) Result {
 	activeMu.Lock()
 	defer activeMu.Unlock()
-	s := &Sched{chooser: ch, chans: map[uintptr]*chanModel{}, maxSteps: o.MaxSteps, done: make(chan struct{}), logOn: o.Log, gomax: o.GOMAXPROCS, onPoint: o.OnPoint, digest: o.Digest, localOpt: o.LocalOpt, prefill: o.PoolPrefill, families: o.Families}
+	s := &Sched{chooser: ch, chans: map[uintptr]*chanModel{}, maxSteps: o.MaxSteps, done: make(chan struct{}), logOn: o.Log, gomax: o.GOMAXPROCS, onPoint: o.OnPoint, digest: o.Digest, localOpt: o.LocalOpt, prefill: o.PoolPrefill, families: o.Families, steer: o.Steer}
 	if s.maxSteps == 0 {
 		s.maxSteps = 1 << 20
 	}
@@ -372,14 +377,16 @@ func (s *Sched) sendReady(ch *chanModel, me *thread) bool {
 	if ch == nil {
 		return false
 	}
-	return ch.closed || len(ch.buf) < ch.cap || (len(ch.buf) == 0 && s.waitingRecv(ch, me) != nil)
+	// buffered: room in the buffer; unbuffered: a receiver is waiting (rendezvous)
+	return ch.closed || len(ch.buf) < ch.cap || (ch.cap == 0 && s.waitingRecv(ch, me) != nil)
 }
 
 func (s *Sched) recvReady(ch *chanModel, me *thread) bool {
 	if ch == nil {
 		return false
 	}
-	return len(ch.buf) > 0 || ch.closed || s.waitingSend(ch, me) != nil
+	// buffered: something in the buffer; unbuffered: a sender is waiting (rendezvous)
+	return len(ch.buf) > 0 || ch.closed || (ch.cap == 0 && s.waitingSend(ch, me) != nil)
 }
 
 func (s *Sched) enabled(t *thread) bool {
@@ -493,6 +500,17 @@ func (s *Sched) pick(running *thread) *thread {
 		if t != running && s.enabled(t) {
 			en = append(en, t)
 		}
+	}
+	if s.steer != nil && len(en) > 0 {
+		ids := make([]int, len(en))
+		for i, t := range en {
+			ids[i] = t.id
+		}
+		i := s.steer(ids)
+		if i < 0 || i >= len(en) {
+			i = 0
+		}
+		return en[i]
 	}
 	switch len(en) {
 	case 0:
@@ -687,8 +705,8 @@ func (s *Sched) doSend(t *thread, ch *chanModel, v any) {
 	if ch.closed {
 		panic("send on closed channel")
 	}
-	if len(ch.buf) == 0 {
-		if r := s.waitingRecv(ch, t); r != nil && len(ch.buf) == 0 {
+	if ch.cap == 0 {
+		if r := s.waitingRecv(ch, t); r != nil {
 			// hand over directly
 			s.complete(r, ch, v, true)
 			s.log(t, "send(handoff)", ch)
@@ -726,7 +744,7 @@ func (s *Sched) doRecv(t *thread, ch *chanModel) (any, bool) {
 		s.log(t, "recv", ch)
 		return v, true
 	}
-	if w := s.waitingSend(ch, t); w != nil {
+	if w := s.waitingSend(ch, t); w != nil && ch.cap == 0 {
 		// take the sender's value directly and complete its send
 		var v any
 		if w.op == opSend {
